@@ -209,3 +209,49 @@ def show(e, depth=0):
     if k == "discr":
         return "discr(%s)" % show(e[1], depth + 1)
     return "?%s" % (k,)
+
+
+def subst(e, env, depth=0):
+    """replace ('var', l, _) leaves by env[l]"""
+    if depth > 60 or not isinstance(e, (tuple, list)):
+        return e
+    if isinstance(e, tuple) and e and e[0] == "var" and e[1] in env:
+        return env[e[1]]
+    if isinstance(e, tuple):
+        out = tuple(subst(x, env, depth + 1) if isinstance(x, (tuple, list)) else x for x in e)
+        if out[0] == "deref" and out[1][0] == "ref":
+            return out[1][1]
+        return out
+    return [subst(x, env, depth + 1) if isinstance(x, (tuple, list)) else x for x in e]
+
+
+def free_locals(e, out, depth=0):
+    if depth > 60 or not isinstance(e, (tuple, list)):
+        return
+    if isinstance(e, tuple) and e and e[0] == "var":
+        out.add(e[1])
+        return
+    for x in e:
+        if isinstance(x, (tuple, list)):
+            free_locals(x, out, depth + 1)
+
+
+def inline_helper(f, e, max_blocks=40):
+    """a call of a small loop-free crate-local function whose single return value is an expression over its parameters ->
+    that expression over the actual arguments (None otherwise): `expand(c)` reads like the `c << 2 | c >> 4` it stands for"""
+    if e[0] != "call" or not isinstance(e[1], str):
+        return None
+    hb = f.bodies.get(e[1])
+    if hb is None or hb.kind not in ("fn", "method") or hb.back_edges or hb.nblocks > max_blocks or hb.argc != len(e[2]):
+        return None
+    heb = ExprBuilder(hb)
+    rets = []
+    for bi, k in hb.defs.get(0, []):
+        rets.append(heb.call_expr(hb.blocks[bi]["term"]) if k == "term" else heb.rvalue(hb.blocks[bi]["stmts"][k]["rv"]))
+    if len(rets) != 1:
+        return None
+    vs = set()
+    free_locals(rets[0], vs)
+    if any(l > hb.argc or l < 1 for l in vs):
+        return None
+    return subst(rets[0], {i + 1: a for i, a in enumerate(e[2])})
